@@ -600,6 +600,29 @@ def run(chk):
     iu = method(ldr, CT, "internal_user_defined_track_params")
     ok = any(isinstance(n, ast.BinOp) and isinstance(n.op, ast.BitAnd) for n in walk_body(iu)) and any("default_internal_template_vars()['globals']" in u(n) for n in walk_body(iu))
     chk.ob("O10.5", "reserved == user-specified intersected with Rally's internal globals", ok, iu, "")
+    # the reserved names are a FIXED set: the function that lists Rally's internal globals returns them whatever its arguments are (it is called without arguments when the
+    # reserved / unused parameters are computed and with the real values when the track is rendered)
+    div = ldr.func("default_internal_template_vars")
+    drets = [n for n in walk_body(div) if isinstance(n, ast.Return)]
+    gkeys, cond_keys = set(), []
+    if len(drets) == 1:
+        rv_ = drets[0].value
+        rv_ = local_defs(div).get(rv_.id, rv_) if isinstance(rv_, ast.Name) else rv_
+        if isinstance(rv_, ast.Dict):
+            gd = next((v_ for k_, v_ in zip(rv_.keys, rv_.values) if source.is_const(k_, "globals")), None)
+            if isinstance(gd, ast.Dict):
+                gkeys = {k_.value for k_ in gd.keys if isinstance(k_, ast.Constant)}
+    for n in walk_body(div):
+        if isinstance(n, ast.Assign) and isinstance(n.targets[0], ast.Subscript) and "globals" in u(n.targets[0]) and pat.fact_nodes(n):
+            cond_keys.append(n)
+    want_g = {"build_flavor", "serverless_operator", "now", "glob"}
+    ok = want_g <= gkeys and not cond_keys
+    chk.ob("O10.5", "Rally's internal globals (the reserved names) are listed unconditionally", ok, cond_keys[0] if cond_keys else div,
+           f"unconditional: {sorted(gkeys)}" + ("" if ok else f"; missing or only conditionally present: {sorted(want_g - gkeys)} — a user parameter of that name is neither rejected as reserved nor as unused"),
+           key=f"{_L}:default_internal_template_vars:reserved-names-fixed")
+    from rules.C05 import throughput_pattern_rule
+
+    throughput_pattern_rule(chk, "O10.2", trk)
     # operation missing / unknown source format
     chk.ob("O10.5", "task without operation rejected", any(isinstance(n, ast.Raise) and exact_facts(n, [f"'operation' not in {params_of(pt)[1]}"]) for n in walk_body(pt)), pt, "")
 
